@@ -191,9 +191,22 @@ class ASTCFG(dict[str, WritableASTBlock]):
         empty = set()
         for name, block in list(self.items()):
             if not block.instructions:
-                empty.add(self.pop(name))
                 # Empty blocks can only have a single jump target.
                 it = block.jump_targets[0]
+                # The entry block must be kept, otherwise its successor (e.g.
+                # a loop header) would become an entry with predecessors. A
+                # block must also be kept if rewiring would leave one of its
+                # predecessors with two identical jump targets. Such blocks
+                # are populated with a no-op instead of being pruned.
+                if name == "0" or any(
+                    len(b.jump_targets) == 2
+                    and name in b.jump_targets
+                    and it in b.jump_targets
+                    for b in self.values()
+                ):
+                    block.instructions.append(ast.Pass())
+                    continue
+                empty.add(self.pop(name))
                 # Iterate over the blocks looking for blocks that point to the
                 # removed block. Then rewire the jump_targets accordingly.
                 for b in list(self.values()):
